@@ -211,6 +211,14 @@ func nestings(g *shapeGen, leaf shape, thorough bool) []shape {
 		}
 		out = append(out, s)
 	}
+	// the custom pair at the key position of a map (comparable leaves only)
+	if !strings.Contains(leaf.Src, "PFXIn") {
+		keyof := func(in shape) shape { return wrap(in, "keyof", "map["+in.Src+"]int", "map["+in.Tgt+"]int") }
+		out = append(out, keyof(leaf))
+		out = append(out, ctorByName("struct").F(g, keyof(leaf)))
+		out = append(out, ctorByName("slice").F(g, keyof(leaf)))
+		out = append(out, ctorByName("map").F(g, ctorByName("struct").F(g, keyof(leaf))))
+	}
 	out = append(out, ctorMapExtKey.F(g, leaf))
 	out = append(out, ctorMapExtKey.F(g, ctorByName("struct").F(g, leaf)))
 	out = append(out, ctorByName("struct").F(g, ctorMapExtKey.F(g, leaf)))
@@ -368,6 +376,39 @@ func fieldFuncConvs(family string, fallible bool) []*Conv {
 			MethodLines: []string{"map First | PFXLast"},
 			Spec:        &Spec{Pairs: map[string]*PairSpec{"PFXIn→PFXOut": {Fields: map[string]*FieldSpec{"First": {Path: []string{"First"}, Fn: "PFXLast"}}}}},
 		})
+	}
+	// map GETTER Target [| FUNC]: the source of the field is the result of an argument-less method of the source
+	// struct (fallible in the error family), alone and piped through a function; nested below a slice and a map so
+	// that the location path has outer elements
+	for fi, f := range []string{"struct", "function", "variable"} {
+		d := "type PFXP struct{ Born int }\n" +
+			fmt.Sprintf("func (p PFXP) Age() %s { %s }\nfunc (p PFXP) Nick() %s { %s }\n", errRes("int"), ret("0"), errRes("string"), ret(`""`)) +
+			"type PFXQ struct {\n\tBorn int\n\tYears string\n\tNick string\n}\n" +
+			fmt.Sprintf("func PFXFmt(age int) %s { %s }\n", errRes("string"), ret(`""`))
+		shapes := []struct{ src, tgt string }{{"PFXP", "PFXQ"}, {"[]PFXP", "[]PFXQ"}, {"map[string]PFXP", "map[string]PFXQ"}}
+		sh := shapes[fi]
+		r := sh.tgt
+		if fallible {
+			r = "(" + sh.tgt + ", error)"
+		}
+		inner := "\t// goverter:map Age Years | PFXFmt\n\tPFXOne(source PFXP) " + strings.Replace(strings.Replace(res, "PFXOut", "PFXQ", 1), "(PFXQ", "(PFXQ", 1) + "\n"
+		if f == "variable" {
+			inner = strings.Replace(inner, "PFXOne(", "PFXOne func(", 1)
+		}
+		cv := &Conv{
+			ID: family + "/fieldfunc/getter_func/" + f, Family: family, Format: f,
+			Params: "source " + sh.src, Results: r, Decls: d,
+			Spec: &Spec{Pairs: map[string]*PairSpec{"PFXP→PFXQ": {Fields: map[string]*FieldSpec{
+				"Years": {Via: "PFXP.Age", Fn: "PFXFmt"},
+				"Nick":  {Via: "PFXP.Nick"},
+			}}}},
+		}
+		if sh.src == "PFXP" {
+			cv.MethodLines = []string{"map Age Years | PFXFmt"}
+		} else {
+			cv.ExtraMethods = inner
+		}
+		out = append(out, cv)
 	}
 	// pointer-source method, self-referential struct, a *S field mapped through a function taking *S
 	for _, f := range []string{"struct", "function", "variable"} {
